@@ -56,7 +56,21 @@ let () =
              (match dec_int_internal (n_of_int (int_of_string skip)) bs with
               | Ok ((r, fb), rest) ->
                   out id "M" ("ok " ^ hex_of_n r ^ " " ^ string_of_int (int_of_n fb) ^ " " ^ consumed (List.length bs) rest)
-              | o -> out id "M" (status o))
+              | o -> out id "M" (status o));
+             (* specification-level expectation, independent of the model of the reader: the byte string is an unsigned
+                integer U of the format; its low `skip` bits are the flag bits, the rest is the magnitude, which has to fit
+                63 bits (a signed 64-bit result) or be flagged - never wrapped into the sign bit *)
+             (match spec_uint_value bs with
+              | None -> out id "S" "anyerr"
+              | Some (u, rest) ->
+                  let used = List.length bs - List.length rest in
+                  let sk = int_of_string skip in
+                  let p2 = N.shiftl (n_of_int 1) (n_of_int sk) in
+                  let mag = N.shiftr u (n_of_int sk) and fb = N.modulo u p2 in
+                  let two63 = N.shiftl (n_of_int 1) (n_of_int 63) in
+                  if N.leb two63 mag then out id "S" "overflow"
+                  else if used <= 10 then out id "S" ("ok " ^ hex_of_n mag ^ " " ^ string_of_int (int_of_n fb) ^ " " ^ string_of_int used)
+                  else ())
          | _ -> out id "M" "bad-case")
     | "sint" ->
         let v = z_of_hex payload in
